@@ -85,6 +85,13 @@ pub(super) fn generate_method_impl(
         };
     };
 
+    // The type the reply parameters are received as. A method without outputs ignores them, which
+    // also accepts an empty object (that `()` would refuse) as the spelling of "no parameters".
+    let received_type: Type = match &reply_type {
+        Type::Tuple(tuple) if tuple.elems.is_empty() => syn::parse_quote!(::serde::de::IgnoredAny),
+        other => other.clone(),
+    };
+
     let out_params_extract = match &reply_type {
         Type::Tuple(tuple) if tuple.elems.is_empty() => {
             // Unit type ()
@@ -105,6 +112,7 @@ pub(super) fn generate_method_impl(
         generate_streaming_method(
             method_call_setup,
             &reply_type,
+            &received_type,
             &error_type,
             out_params_extract,
             crate_path,
@@ -113,6 +121,7 @@ pub(super) fn generate_method_impl(
         generate_regular_method(
             method_call_setup,
             &reply_type,
+            &received_type,
             &error_type,
             out_params_extract,
             crate_path,
@@ -336,6 +345,7 @@ fn generate_oneway_method(
 fn generate_streaming_method(
     method_call_setup: TokenStream,
     reply_type: &Type,
+    received_type: &Type,
     error_type: &Type,
     out_params_extract: TokenStream,
     crate_path: &TokenStream,
@@ -355,7 +365,7 @@ fn generate_streaming_method(
 
         let stream = #crate_path::connection::chain::ReplyStream::new(
             self.read_mut(),
-            |conn| conn.receive_reply::<#reply_type, #error_type>(),
+            |conn| conn.receive_reply::<#received_type, #error_type>(),
             1,
         );
 
@@ -374,6 +384,7 @@ fn generate_streaming_method(
 fn generate_regular_method(
     method_call_setup: TokenStream,
     reply_type: &Type,
+    received_type: &Type,
     error_type: &Type,
     out_params_extract: TokenStream,
     crate_path: &TokenStream,
@@ -385,7 +396,7 @@ fn generate_regular_method(
         #method_call_setup
 
         let call = #crate_path::Call::new(method_call);
-        match self.call_method::<_, #reply_type, #error_type>(&call).await? {
+        match self.call_method::<_, #received_type, #error_type>(&call).await? {
             Ok(reply) => #out_params_extract,
             Err(error) => Ok(Err(error)),
         }
